@@ -193,6 +193,7 @@ type FuncReport struct {
 	Notes       []string
 	Assumptions []string
 	Vacuous     []string
+	Unstatable  []string // clauses naming a local that is not in scope where they now land: undecided, not violated
 	Err         error
 	EncodeMs    int64
 }
@@ -221,6 +222,7 @@ func (w *World) VerifyFunc(fn *ssa.Function, fc *FuncContract, timeoutS int) *Fu
 	rep.EncodeMs = time.Since(t0).Milliseconds()
 	rep.Loops = len(e.loopList)
 	rep.Notes = e.notes
+	rep.Unstatable = e.unstatable
 	rep.Assumptions = e.assumed
 	var idxs []int
 	for i, it := range e.items {
@@ -245,6 +247,9 @@ func (w *World) VerifyFunc(fn *ssa.Function, fc *FuncContract, timeoutS int) *Fu
 			}
 			if it.Kind == itProbe {
 				r := Probe(it.Name, q)
+				if d := os.Getenv("GOVC_DUMP_PROBE"); d != "" && strings.Contains(it.Name, d) {
+					os.WriteFile("/tmp/probe.smt2", []byte(q), 0o644)
+				}
 				results[k] = ObResult{Name: it.Name, Desc: "probe", Status: r.Status, Solver: r.Solver, Ms: r.Ms}
 				return
 			}
